@@ -226,10 +226,11 @@ type c04Scenario struct {
 	Policy    verifrt.SerialPolicy
 	Seed      int64
 	Shared    bool // all producers send under one sender identity (matters for the fair mailbox)
+	Prefill   int  // messages put through the mailbox sequentially beforehand (segmented: the history then crosses the 256-slot segment boundary)
 }
 
 func (s c04Scenario) String() string {
-	return fmt.Sprintf("kind=%s cap=%d prio=%s producers=%d per=%d cons=%v policy=%d seed=%d shared=%v", s.Kind, s.Capacity, s.PrioFn, s.Producers, s.PerProd, s.ConsOps, s.Policy, s.Seed, s.Shared)
+	return fmt.Sprintf("kind=%s cap=%d prio=%s producers=%d per=%d cons=%v policy=%d seed=%d shared=%v prefill=%d", s.Kind, s.Capacity, s.PrioFn, s.Producers, s.PerProd, s.ConsOps, s.Policy, s.Seed, s.Shared, s.Prefill)
 }
 
 // c04Run executes one scenario under the serial scheduler and returns the history.
@@ -256,6 +257,14 @@ func c04Run(s c04Scenario, box int) (ops []porcupine.Operation, trace []byte, mi
 			misdelivered = append(misdelivered, fmt.Sprintf("message id=%d of mailbox %d dequeued from mailbox %d", m.ID, m.Box, box))
 		}
 		return c04Out{ID: m.ID}
+	}
+	// sequential prefill: the mailbox is empty again afterwards (same abstract
+	// state as a fresh one), but its internal position is just before a boundary
+	for i := 0; i < s.Prefill; i++ {
+		_ = mb.Enqueue(&ReceiveContext{message: &c04Msg{ID: -1 - i, Box: box}, sender: c04Senders[0]})
+		if mb.Dequeue() == nil {
+			misdelivered = append(misdelivered, fmt.Sprintf("prefill message %d not dequeued", i))
+		}
 	}
 	var fns []func()
 	id := 0
@@ -393,6 +402,9 @@ func c04GenScenario(rng *rand.Rand, kind string) c04Scenario {
 	}
 	s.Policy = []verifrt.SerialPolicy{verifrt.SerialRandom, verifrt.SerialPCT, verifrt.SerialSticky}[rng.Intn(3)]
 	s.Shared = kind == "fair" && rng.Intn(2) == 0
+	if kind == "segmented" && rng.Intn(3) > 0 {
+		s.Prefill = segmentSize - rng.Intn(7) // 250..256: the concurrent part crosses into a new segment
+	}
 	return s
 }
 
